@@ -281,6 +281,7 @@ impl ChipModel for Sx126xChip {
         {
             self.rx_len = n;
             self.cmd_status = 1;
+            self.irq |= 0x0002; // RxDone of the second packet
         }
         r
     }
